@@ -4,7 +4,7 @@
        print  exn;format_match;complete;safety;checks  (exn = class of the exception that escaped eat_chunk or '-';
        checks = the registered check names)
    spec <fmt> <data>
-       the declarative byte-level acceptance predicate of a static format (True/False; '-' for vmdk, vhdx)
+       the declarative byte-level acceptance predicate (static formats; sparse VMDK outside the zones F1/F3): True/False, '-' = not characterised
    cli <path_ok> <detect_ok> <safety> <vsize_ok> <verbose>
        exit status of the translated body of cli.main in that environment *)
 From Coq Require Import String.
@@ -49,7 +49,8 @@ Definition run (args : list bytes) : bytes :=
   else if is_op "spec" op then
     match parse_fmt (nth_arg args 1) with
     | None => lit "BADFMT"
-    | Some f => match static_safeb f (nth_arg args 2) with Some v => out_bool v | None => [45] end
+    | Some f => match (match f with F_vmdk => vmdk_sparse_safeb (nth_arg args 2) | _ => static_safeb f (nth_arg args 2) end) with
+                Some v => out_bool v | None => [45] end
     end
   else if is_op "cli" op then
     let env := mkCenv (arg_bool (nth_arg args 1))
